@@ -2,7 +2,7 @@
     identity on integers; results of the integer readers are in range. *)
 From Coq Require Import ZArith NArith List Bool Lia.
 From Coq Require Import ZifyBool ZifyNat ZifyN.
-From Snel Require Import Base.Bytes Model.Float64 Model.RustText Model.JsonV7.
+From Snel Require Import Base.Bytes Model.Float64 Model.RustText Model.JsonV7 Gen.Params.
 Import ListNotations.
 Open Scope Z_scope.
 
@@ -296,17 +296,48 @@ Proof.
   apply IH; assumption.
 Qed.
 
+Lemma parse_number_legacy_digits : forall c r n,
+  all_digits (c :: r) = true -> digits_val (c :: r) 0 = n -> 0 <= n <= u64_max -> (c = 48%N -> r = []) ->
+  parse_number_legacy false (c :: r) = Some (JU64 n, []).
+Proof.
+  intros c r n Hd Hv Hn H0. pose proof (all_digits_head _ _ Hd) as Hc.
+  cbn [all_digits] in Hd. apply andb_true_iff in Hd. destruct Hd as [_ Hr].
+  cbn [digits_val] in Hv. rewrite Z.mul_0_l, Z.add_0_l in Hv.
+  unfold parse_number_legacy. rewrite Hc.
+  destruct (N.eqb_spec c 48) as [E48|E48].
+  - rewrite (H0 E48) in *. subst c. cbn in Hv. subst n. reflexivity.
+  - rewrite int_digits_all; [|exact Hr|lia|rewrite Hv; lia].
+    rewrite Hv. cbn [number_tail negb]. reflexivity.
+Qed.
+
+Lemma parse_number_rt_digits : forall c r n,
+  all_digits (c :: r) = true -> digits_val (c :: r) 0 = n -> 0 <= n <= u64_max -> (c = 48%N -> r = []) ->
+  parse_number_rt false (c :: r) = Some (JU64 n, []).
+Proof.
+  intros c r n Hd Hv Hn H0. pose proof (all_digits_head _ _ Hd) as Hc.
+  assert (Hb : number_body_rt false (c :: r) = Some (JU64 n, [])).
+  { unfold number_body_rt. rewrite span_digits_all by exact Hd. rewrite Hv.
+    unfold number_int. destruct (Z.ltb_spec u64_max n); [lia|]. reflexivity. }
+  unfold parse_number_rt. rewrite Hc.
+  destruct (N.eqb_spec c 48) as [E48|E48]; [|exact Hb].
+  rewrite (H0 E48) in *. exact Hb.
+Qed.
+
 Lemma parse_json_dec : forall n, 0 <= n <= u64_max -> parse_json (dec_of_Z n) = Some (JU64 n).
 Proof.
   intros n Hn. rewrite dec_of_Z_nonneg by lia.
   destruct (dec_of_N_spec (Z.to_N n)) as (H1 & H2 & H3 & H4).
   destruct (dec_of_N_head (Z.to_N n)) as (c & r & E & Hc).
+  assert (H0 : c = 48%N -> r = []).
+  { intros ->. destruct (Z.eq_dec n 0) as [->|Hnz].
+    - cbn in E. inversion E. reflexivity.
+    - exfalso. assert (Hp : (0 < Z.to_N n)%N) by lia. specialize (H4 Hp). rewrite E in H4. cbn [head_nonzero] in H4. contradiction. }
   unfold parse_json. rewrite E in *.
   replace (2 * length (c :: r) + 4)%nat with (S (2 * length (c :: r) + 3))%nat by lia.
   cbn [pvalue].
   assert (Hws : skip_ws (c :: r) = c :: r).
-  { unfold skip_ws. cbn [drop_while]. assert (is_json_ws c = false) by (unfold is_json_ws; unfold is_digit in Hc; lia).
-    rewrite H. reflexivity. }
+  { unfold skip_ws. cbn [drop_while]. assert (Hw : is_json_ws c = false) by (unfold is_json_ws; unfold is_digit in Hc; lia).
+    rewrite Hw. reflexivity. }
   rewrite Hws.
   assert (T1 : (c =? 110)%N = false) by (unfold is_digit in Hc; lia).
   assert (T2 : (c =? 116)%N = false) by (unfold is_digit in Hc; lia).
@@ -314,14 +345,9 @@ Proof.
   assert (T4 : (c =? 34)%N = false) by (unfold is_digit in Hc; lia).
   assert (T5 : (c =? 45)%N = false) by (unfold is_digit in Hc; lia).
   rewrite T1, T2, T3, T4, T5, Hc.
-  unfold parse_number. rewrite Hc.
-  cbn [all_digits] in H1. apply andb_true_iff in H1. destruct H1 as [_ Hr].
-  cbn [digits_val] in H2. rewrite Z.mul_0_l, Z.add_0_l in H2.
-  destruct (N.eqb_spec c 48) as [E48|E48].
-  - (* leading zero: only for n = 0 *)
-    destruct (Z.eq_dec n 0) as [->|Hnz].
-    + cbn in E. inversion E. subst. cbn. reflexivity.
-    + exfalso. assert (Hp : (0 < Z.to_N n)%N) by lia. specialize (H4 Hp). cbn [head_nonzero] in H4. contradiction.
-  - rewrite int_digits_all; [|exact Hr|lia|rewrite H2, Z2N.id by lia; lia].
-    rewrite H2, Z2N.id by lia. cbn [number_tail negb skip_ws drop_while]. reflexivity.
+  rewrite Z2N.id in H2 by lia.
+  assert (Hp : parse_number false (c :: r) = Some (JU64 n, [])).
+  { unfold parse_number. destruct value_serde_float_roundtrip;
+      [apply parse_number_rt_digits|apply parse_number_legacy_digits]; assumption. }
+  rewrite Hp. cbn [skip_ws drop_while]. reflexivity.
 Qed.
